@@ -139,8 +139,9 @@ func (e *Engine) specFor(fn *ssa.Function) *FuncSpec {
 // rootSpecFor: the contract a function is verified against as a unit root: its own, else the requires clauses of a
 // "roots" function-type contract whose signature it has (a handler is only ever called through a HandlerFunc value).
 func (e *Engine) rootSpecFor(fn *ssa.Function) *FuncSpec {
-	if spec := e.specFor(fn); spec != nil || fn.Pkg == nil || fn.Signature.Recv() != nil {
-		return spec
+	own := e.specFor(fn)
+	if fn.Pkg == nil || fn.Signature.Recv() != nil {
+		return own
 	}
 	for key, fs := range e.contracts.Funcs {
 		if !fs.Flags["functype"] || !fs.Flags["roots"] {
@@ -162,10 +163,19 @@ func (e *Engine) rootSpecFor(fn *ssa.Function) *FuncSpec {
 		if !ok || !types.Identical(sig, fn.Signature) {
 			continue
 		}
+		if own != nil {
+			// the function's own contract, with the function type's preconditions in front
+			if own.Flags["trusted"] {
+				return own
+			}
+			merged := *own
+			merged.Requires = append(append([]*Clause{}, fs.Requires...), own.Requires...)
+			return &merged
+		}
 		return &FuncSpec{Name: fn.Name(), Pkg: fn.Pkg.Pkg.Path(), Props: fs.Props, Flags: map[string]bool{"derived": true}, Requires: fs.Requires,
 			Assumes: fs.Assumes, Loops: map[int]*LoopSpec{}, File: fs.File, Line: fs.Line}
 	}
-	return nil
+	return own
 }
 
 func (e *Engine) timeType() types.Type { return e.timeT }
